@@ -21,13 +21,13 @@ abbrev Val := Nat
 inductive T where
   | nil : T
   | last (p : Bool) (c : T) : T
-  | cons (p : Bool) (c : T) (k : Key) (v : Val) (r : T) : T
+  | cons (p : Bool) (c : T) (k : Nat) (v : Nat) (r : T) : T
   deriving Repr, DecidableEq, Inhabited
 
 namespace T
 
 /-- in-order entries = what `Iter` yields (lib.go:509-532) -/
-def toList : T → List (Key × Val)
+def toList : T → List (Nat × Nat)
   | nil => []
   | last _ c => toList c
   | cons _ c k v r => toList c ++ (k, v) :: toList r
@@ -52,7 +52,7 @@ def rowLen : T → Nat
   | _ => 0
 
 /-- `split` (lib.go:82-181): one spine, both halves are new in-memory nodes. -/
-def split : T → Key → T × T
+def split : T → Nat → T × T
   | nil, _ => (nil, nil)
   | last _ c, x =>
       let q := split c x
@@ -67,14 +67,14 @@ def split : T → Key → T × T
 
 /-- the chain that `follow(createOk)` + Insert build under an absent link:
     `n` pass-through nodes and a one-entry node -/
-def freshPath : Nat → Key → Val → T
+def freshPath : Nat → Nat → Nat → T
   | 0, k, v => cons false nil k v (last false nil)
   | n+1, k, v => last false (freshPath n k v)
 
 /-- Insert below a node `s` levels above the key's target level (pub.go Insert + findNode +
     savePathForRoot, without grow).  `none` = the Go code panics ("dunno why we didn't land in
     the right layer": the key sits above its layer). Every link on the path becomes a pointer. -/
-def ins (k : Key) (v : Val) : Nat → T → Option T
+def ins (k : Nat) (v : Nat) : Nat → T → Option T
   | s, nil => some (freshPath s k v)
   | 0, last _ c =>
       let q := split c k
@@ -92,7 +92,7 @@ def ins (k : Key) (v : Val) : Nat → T → Option T
       else (ins k v s c).map (fun c' => cons false c' k' v' r)
 
 /-- lookup along the same descent (pub.go Get + findNode) -/
-def get (k : Key) : Nat → T → Option Val
+def get (k : Nat) : Nat → T → Option Nat
   | _, nil => none
   | 0, last _ _ => none
   | 0, cons _ _ k' v' r =>
@@ -130,7 +130,7 @@ def joinAt (p : Bool) (c : T) : T → T
 
 /-- Delete below a node `s` levels above the key's target level (pub.go Delete + findEntry +
     deleteEntry + the pruning loop of savePathForRoot).  `none` = "not present". -/
-def del (k : Key) : Nat → T → Option T
+def del (k : Nat) : Nat → T → Option T
   | _, nil => none
   | 0, last _ _ => none
   | 0, cons p c k' v' r =>
@@ -144,7 +144,7 @@ def del (k : Key) : Nat → T → Option T
       else (del k s c).map (fun c' => cons false (mk c') k' v' r)
 
 /-- `shrink` (lib.go:382-449): every child row is spliced into the top row -/
-def snoc (k : Key) (v : Val) (rest : T) : T → T
+def snoc (k : Nat) (v : Nat) (rest : T) : T → T
   | nil => cons false nil k v rest
   | last p x => cons p x k v rest
   | cons p c k' v' r => cons p c k' v' (snoc k v rest r)
@@ -155,12 +155,12 @@ def shrink : T → T
   | cons _ c k v r => snoc k v (shrink r) c
 
 /-- `grow` (lib.go:299-367): keys of layer > h move up; the runs between them become children -/
-def prepend (p : Bool) (c : T) (k : Key) (v : Val) : T → T
+def prepend (p : Bool) (c : T) (k : Nat) (v : Nat) : T → T
   | nil => nil
   | last _ ch => last false (cons p c k v (unmk ch))
   | cons _ ch k2 v2 r2 => cons false (cons p c k v (unmk ch)) k2 v2 r2
 
-def grow (layer : Key → Nat) (h : Nat) : T → T
+def grow (layer : Nat → Nat) (h : Nat) : T → T
   | nil => nil
   | last p c => last false (mk (last p c))
   | cons p c k v r =>
@@ -168,7 +168,7 @@ def grow (layer : Key → Nat) (h : Nat) : T → T
       else prepend p c k v (grow layer h r)
 
 /-- `canGrow` (lib.go:369-380) -/
-def canGrow (layer : Key → Nat) (h : Nat) : T → Bool
+def canGrow (layer : Nat → Nat) (h : Nat) : T → Bool
   | cons _ _ k _ r => h < layer k || canGrow layer h r
   | _ => false
 
@@ -207,14 +207,14 @@ def empty (bf : Nat) : Tree :=
   { root := last false nil, rootP := false, dirty := false, size := 0, height := 0, bf := bf,
     growAfter := bf, shrinkBelow := 1 }
 
-def levels (layer : Key → Nat) (m : Tree) (k : Key) : Nat :=
+def levels (layer : Nat → Nat) (m : Tree) (k : Nat) : Nat :=
   m.height - min (layer k) m.height
 
-def lookup (layer : Key → Nat) (m : Tree) (k : Key) : Option Val :=
+def lookup (layer : Nat → Nat) (m : Tree) (k : Nat) : Option Nat :=
   get k (m.levels layer k) m.root
 
 /-- the grow loop of Insert (pub.go:487-503); `size` is still the old size here -/
-def growLoop (layer : Key → Nat) : Nat → Tree → Tree
+def growLoop (layer : Nat → Nat) : Nat → Tree → Tree
   | 0, m => m
   | fuel+1, m =>
       if m.size ≥ m.growAfter ∧ canGrow layer m.height m.root then
@@ -230,7 +230,7 @@ inductive Res (α : Type) where
   deriving Repr
 
 /-- `Insert` (pub.go:392-506) -/
-def insert (layer : Key → Nat) (m : Tree) (k : Key) (v : Val) : Res Tree :=
+def insert (layer : Nat → Nat) (m : Tree) (k : Nat) (v : Nat) : Res Tree :=
   match m.lookup layer k with
   | some v' =>
       if v' = v then .ok m
@@ -260,7 +260,7 @@ def shrinkLoop : Nat → Tree → Tree
       else m
 
 /-- `Delete` (pub.go:89-127) -/
-def delete (layer : Key → Nat) (m : Tree) (k : Key) (v : Val) : Res Tree :=
+def delete (layer : Nat → Nat) (m : Tree) (k : Nat) (v : Nat) : Res Tree :=
   match m.lookup layer k with
   | none => .err "notpresent"
   | some v' =>
@@ -270,7 +270,7 @@ def delete (layer : Key → Nat) (m : Tree) (k : Key) (v : Val) : Res Tree :=
         | some r =>
             .ok (shrinkLoop (m.height + 1) { m with root := r, rootP := false, dirty := true, size := m.size - 1 })
 
-def toList (m : Tree) : List (Key × Val) := m.root.toList
+def toList (m : Tree) : List (Nat × Nat) := m.root.toList
 
 end Tree
 end Mast
